@@ -165,8 +165,8 @@ def outcome_space(tier, seed):
             lls = [(nu, i) for nu in NULL_KINDS for i in ('present', 'zero')]
             ns = (0, 1)
         else:
-            bs, vs, boots, bds = B_KINDS, (0, 1, 2), ('none', 'r2', 'r3', 'r5', 'const', 'r4'), BOUND_KINDS
-            lls = [(nu, i) for nu in NULL_KINDS for i in INIT_KINDS]
+            bs, vs, boots, bds = B_KINDS, (0, 1, 2), ('none', 'r2', 'r3', 'r5', 'const'), ('none', 'active', 'near')
+            lls = [(nu, i) for nu in NULL_KINDS for i in ('present', 'zero', 'absent')]
             ns = (0, 1, 2)
         for h, b, v, boot, bd in itertools.product(hs, bs, vs, boots, bds):
             for (nu, i), n in itertools.product(lls, ns):
@@ -713,7 +713,7 @@ POOL = [
     dict(k=3, h=2, b='generic', v=0, boot='none', bd='active', null='absent', init='present', n=1, lls=-3.25),
     dict(k=2, h=3, b='scaled', v=1, boot='none', bd='none', null='present', init='present', n=0, lls=2.0),
     dict(k=3, h=5, b='generic', v=2, boot='r5', bd='wide', null='present', init='present', n=2, lls=0.5),
-    dict(k=1, h=1, b='scaled', v=1, boot='none', bd='near', null='absent', init='present', n=1, lls=-0.75),
+    dict(k=1, h=1, b='scaled', v=1, boot='none', bd='near', null='absent', init='equal', n=1, lls=-0.75),
     dict(k=3, h=1, b='rank1', v=1, boot='r4', bd='none', null='present', init='present', n=0, lls=1.25),
 ]
 STATS_DEFAULT = ('Number of estimated parameters', 'Sample size', 'Final log likelihood',
@@ -962,14 +962,14 @@ def run_lr_task(task, rec):
 
 # ----------------------------------------------------------------------------------------- part r: real estimations
 REAL_DATA = [
-    dict(x=[1.0, 2.0, 3.0, 4.0], y=[0.5, 1.0, 2.0, 3.5]),
-    dict(x=[1.0, 2.0, 3.0, 4.0], y=[0.75, 1.5, 2.0, 3.25]),
-    dict(x=[1.0, 2.0, 3.0, 5.0], y=[0.5, 1.25, 2.25, 3.0]),
-    dict(x=[0.5, 2.0, 3.0, 4.0], y=[1.0, 1.0, 2.5, 3.5]),
+    dict(x=[1.0, 2.0, 3.0, 4.0], y=[2.0, 2.5, 3.75, 4.5]),
+    dict(x=[1.0, 2.0, 3.0, 4.0], y=[1.75, 2.75, 3.0, 4.25]),
+    dict(x=[1.0, 2.0, 3.0, 5.0], y=[1.5, 2.25, 3.5, 4.25]),
+    dict(x=[0.5, 2.0, 3.0, 4.0], y=[2.0, 2.5, 3.5, 4.75]),
 ]
 LOGIT_DATA = [
     dict(x1=[1.0, 2.0, 3.0, 1.5, 2.5, 0.5], x2=[2.0, 1.0, 2.5, 2.5, 1.0, 2.0], choice=[1, 2, 1, 2, 2, 1]),
-    dict(x1=[1.0, 2.0, 3.0, 1.5, 2.5, 0.5], x2=[2.0, 1.5, 2.0, 1.0, 3.0, 1.0], choice=[1, 2, 2, 2, 1, 1]),
+    dict(x1=[1.0, 2.0, 3.0, 1.5, 2.5, 0.5], x2=[2.0, 1.5, 2.0, 1.0, 3.0, 1.0], choice=[1, 2, 2, 1, 1, 2]),
 ]
 REAL_MODELS = ['ls1', 'ls2', 'logit2']
 
@@ -999,7 +999,7 @@ def real_biogeme(model, seed, nboot):
         else:
             b1 = Beta(names[2][0], 0.0, None, 0.6 if seed % 2 else None, 0)
             b2 = Beta(names[2][1], 0.0, None, None, 0)
-            ll = -((Variable('y') - b1 * Variable('x') - exp(b2)) ** 2)
+            ll = -((Variable('y') - b1 * Variable('x') - b2) ** 2)
     b = bb.BIOGEME(d, ll, parameters=Parameters(), generate_html=False, generate_pickle=False,
                    save_iterations=False, number_of_threads=1, bootstrap_samples=max(nboot, 1))
     b.modelName = 'c08real_' + model
@@ -1239,7 +1239,9 @@ def view_html(r, ck, only_robust):
         if lab in GENERAL_LABELS and general_ref(ck, GENERAL_LABELS[lab][0]) in (None, 'undefined'):
             continue
         exp.append(lab)
-    ck.structure(view, 'statistics labels', exp, [s[0] for s in stats])
+    optim = set(r.data.optimizationMessages)  # the optimiser's diagnostics share the table; not statistics
+    stats = [s_ for s_ in stats if s_[0] not in optim]
+    ck.structure(view, 'statistics labels', exp, [s_[0] for s_ in stats])
     for lab, val in stats:
         if lab in GENERAL_LABELS:
             key, spec = GENERAL_LABELS[lab]
@@ -1309,7 +1311,11 @@ def view_f12(r, ck, robust):
     fam = 'robust' if robust else 'classical'
     f = ck.ref['fam'][fam]
     lines = r.get_f12(robust_std_err=robust).split('\n')
-    coef = [ln for ln in lines if ln.startswith('   0 ')]
+    try:
+        coef = lines[lines.index('END') + 1:lines.index('  -1')]
+    except ValueError:
+        ck.structure(view, 'END / -1 markers present', True, False)
+        return
     ck.structure(view, 'coefficient lines', k, len(coef))
     for i, ln in enumerate(coef[:k]):
         parts = ln[5:].rsplit(None, 3)
